@@ -329,3 +329,68 @@ SCENARIOS = [
              trusted=["installed torch (torch.ops.*._schema) and onnx.checker as data oracles",
                       "exporter binding rule transcribed from torch.onnx._internal.exporter._building._construct_named_inputs_and_attrs"]),
 ]
+
+
+def s_op_signature_from_function(_ctx):
+    """_schemas.op_signature_from_function executed from source on functions covering every annotation form torch_lib
+    uses: a parameter is an ATTRIBUTE iff its annotation is int / float / bool / str or a Sequence of those (an
+    Optional[...] of them is an INPUT that may be absent — the same rule as torch.onnx's own copy of this function, which
+    binds the ATen arguments), otherwise an INPUT; order, names, required-ness (= no default) and defaults are kept; parameters annotated with the
+    same TypeVar share one type constraint; each returned value becomes one output."""
+    import typing
+    from typing import Optional, Sequence, TypeVar
+    import onnx_ir as ir
+    from contracts.c17_opsets import Agg
+    from pyvc.core import Ctx
+    from onnxscript.ir import _schemas
+    from onnxscript.onnx_types import FLOAT, INT64, TensorType
+    agg = Agg()
+    cl = "C16: 'its Python signature, as read by the exporter, accepts the ATen schema's arguments: tensor arguments map to inputs, scalar/list arguments to attributes'"
+    from contracts import c16_samples as S
+    f1, f2, f3, f4, f5, f6 = S.f1, S.f2, S.f3, S.f4, S.f5, S.f6
+    ATTR = ir.AttributeType
+    want = {
+        "f1": [("self", "in", True, "TReal"), ("other", "in", True, "TReal"), ("alpha", ATTR.FLOAT, False, 1.0)],
+        "f2": [("x", "in", True, None), ("dims", ATTR.INTS, True, None), ("keepdim", ATTR.INT, False, False), ("dtype", ATTR.INT, False, -1)],
+        "f3": [("x", "in", True, "TAny"), ("weight", "in", False, "TAny"), ("eps", "in", False, "T_eps"), ("mode", ATTR.STRING, False, "mean")],
+        "f4": [("tensors", "in", True, "Sequence_TReal"), ("dim", ATTR.INT, False, 0)],
+        "f5": [("x", "in", True, "T_x"), ("scale", ATTR.FLOATS, False, (1.0, 2.0))],
+        "f6": [("x", "in", True, None), ("idx", "in", False, None), ("names", "in", False, "T_names")],
+    }
+    outs = {"f1": 1, "f2": 1, "f3": 2, "f4": 1, "f5": 0, "f6": 1}
+    n = 0
+    for fn in (f1, f2, f3, f4, f5, f6):
+        n += 1
+        name = fn.__name__
+        ctx = Ctx([], {"solver_s": 0.0, "queries": 0})
+        I = Interp(ctx)
+        try:
+            sig = I.run_closure(I.closure_of(_schemas.op_signature_from_function), [fn, "aten", name], {})
+            got = []
+            for p in sig.params:
+                if isinstance(p, ir.schemas.AttributeParameter):
+                    dv = p.default.value if p.default is not None else None
+                    got.append((p.name, p.type, p.required, dv))
+                else:
+                    got.append((p.name, "in", p.required, p.type_constraint.name))
+            exp_ = []
+            for (pn, kind, req, extra), g in zip(want[name], got):
+                exp_.append((pn, kind, req, g[3] if (kind == "in" and extra is None) else extra))
+            ok = got == exp_ and len(got) == len(want[name]) and len(sig.outputs) == outs[name] and sig.domain == "aten" and sig.name == name
+            shared = True
+            byname = {}
+            for p in sig.params:
+                if not isinstance(p, ir.schemas.AttributeParameter):
+                    shared = shared and byname.setdefault(p.type_constraint.name, p.type_constraint) is p.type_constraint
+            ok = ok and shared
+            detail = f"{name}: parameters {got}, outputs {len(sig.outputs)}; expected {exp_}, outputs {outs[name]}"
+        except Exception as e:  # noqa: BLE001
+            ok, detail = False, f"{name}: {type(e).__name__}: {e}"
+        agg.ob("C16.schemas.op_signature_from_function.annotations_decide_inputs_and_attributes", ok, detail, cl, case=name)
+    return {"obligations": agg.obs, "paths": n, "covered": [f"signature_forms={n}"], "notes": [], "functions": []}
+
+
+SCENARIOS.append(Scenario("C16.schemas.op_signature_from_function", s_op_signature_from_function,
+                          [("onnxscript/ir/_schemas.py", "op_signature_from_function"), ("onnxscript/ir/_schemas.py", "get_attr_type"),
+                           ("onnxscript/ir/_schemas.py", "_get_type_constraint_name")], kind="evaluation",
+                          trusted=["inspect.signature / typing.get_type_hints (CPython)", "ir.schemas.Parameter / AttributeParameter / OpSignature (onnx_ir)"]))
